@@ -295,6 +295,34 @@ Qed.
 Lemma WFs_get : forall s ch c, WFs s -> s_get s ch = Some c -> NoDup (map fst (sc_map c)) /\ offs_from 0 (sc_log c).
 Proof. intros s ch c (W1 & W2) G. apply (W2 ch). apply (aget_In N.eqb N_eqb_eq'). exact G. Qed.
 
+Lemma retained_offs : forall size sc, offs_from 0 (sc_log sc) ->
+  exists a, offs_from a (retained size sc) /\ N.of_nat (length (sc_log sc)) = a + N.of_nat (length (retained size sc)).
+Proof.
+  intros size sc H. unfold retained, window, lastk.
+  set (k1 := (length (sc_log sc) - sc_keep sc)%nat).
+  set (k2 := (length (skipn k1 (sc_log sc)) - N.to_nat size)%nat).
+  rewrite skipn_skipn'.
+  exists (N.of_nat (Nat.min (k1 + k2) (length (sc_log sc)))). split.
+  - apply (offs_from_skipn (k1 + k2) (sc_log sc) 0 H).
+  - rewrite skipn_length. unfold k2. rewrite skipn_length. unfold k1. lia.
+Qed.
+
+Lemma hubR_set_spec : forall cfgs h s ch c sc',
+  hubR cfgs h s -> aget N.eqb (h_chans h) ch = Some c -> chanR cfgs ch c sc' -> hubR cfgs h (s_set s ch sc').
+Proof.
+  intros cfgs h s ch c sc' (HC & HI & HN & HE & HB) G HCR. unfold hubR, s_set; simpl. splits; auto.
+  rewrite <- (aset_same N.eqb N_eqb_eq' _ _ _ G). apply arel_set; auto.
+Qed.
+
+Lemma hubR_create : forall cfgs h s ch sc',
+  hubR cfgs h s -> aget N.eqb (h_chans h) ch = None -> chanR cfgs ch (new_chan (h_nep h) false) sc' ->
+  hubR cfgs (set_nep (set_chan h ch (new_chan (h_nep h) false)) (h_nep h + 1))
+       (s_set (mkSS (aset N.eqb (ss_chans s) ch (mkSC (ss_nep s) [] [] 0 0 0)) (ss_idem s) (ss_now s) (ss_nep s + 1) (ss_bcast s)) ch sc').
+Proof.
+  intros cfgs h s ch sc' (HC & HI & HN & HE & HB) G HCR. unfold hubR, s_set; hub_simpl. splits; auto; try congruence.
+  rewrite (aset_aset N.eqb N_eqb_eq'). apply arel_set; auto.
+Qed.
+
 (* ------------------------------------------------------------- read stream *)
 Lemma read_stream_sim : forall cfgs h s ch since limit rv h' r s' r',
   hubR cfgs h s -> WFs s ->
@@ -307,23 +335,31 @@ Proof.
   assert (HR0 : hubR cfgs h0 s) by (apply hubR_touch_meta; exact HR).
   clearbody h0. clear h HR. rename h0 into h. rename HR0 into HR.
   pose proof HR as (HC & HI & HN & HE & HB).
-  unfold read_stream, spec_read_stream, s_get, s_ensure, s_get in *.
+  unfold spec_read_stream, s_ensure, s_get in *.
   destruct (get_chan h ch) as [c|] eqn:G; unfold get_chan in G.
   - destruct (arel_get_some _ _ _ _ _ HC G) as (sc & G' & HCR). rewrite G' in H2.
-    pose proof (chanR_pos _ _ _ _ HCR) as EP. destruct HCR as (ES & _).
+    set (sc' := touch_mdead (mttl_of cfgs ch) (ss_now s) sc) in *.
+    assert (HCR' : chanR cfgs ch c sc') by (apply chanR_touch_mdead; exact HCR).
+    assert (HR' : hubR cfgs h (s_set s ch sc')) by (eapply hubR_set_spec; eauto).
+    pose proof (chanR_pos _ _ _ _ HCR') as EP. pose proof HCR' as (ES & _).
+    destruct (touch_mdead_fields (mttl_of cfgs ch) (ss_now s) sc) as (F1 & F2 & F3 & F4).
     destruct (WFs_get _ _ _ WF G') as (_ & OF).
-    destruct (window_offs (size_of cfgs ch) _ OF) as (a & OW & EL).
+    assert (OF' : offs_from 0 (sc_log sc')) by (unfold sc'; rewrite F3; exact OF).
+    destruct (retained_offs (size_of cfgs ch) sc' OF') as (a & OW & EL).
     rewrite EP in H1. rewrite ES in H1. simpl in H1.
     destruct since as [[so se]|].
-    + destruct (negb (se =? 0) && negb (se =? sc_epoch sc)); [inversion H1; inversion H2; subst; auto|].
-      rewrite <- (stream_get_spec _ a _ (sc_epoch sc) so limit rv OW EL) in H2.
-      destruct (negb rv && (N.of_nat (length (sc_log sc)) =? so)); inversion H1; inversion H2; subst; auto.
-    + rewrite <- (stream_get_spec_none _ _ (sc_epoch sc)) in H2.
+    + destruct (negb (se =? 0) && negb (se =? sc_epoch sc')); [inversion H1; inversion H2; subst; auto|].
+      rewrite <- (stream_get_spec _ a _ (sc_epoch sc') so limit rv OW EL) in H2.
+      destruct (negb rv && (N.of_nat (length (sc_log sc')) =? so)); inversion H1; inversion H2; subst; auto.
+    + rewrite <- (stream_get_spec_none _ _ (sc_epoch sc')) in H2.
       destruct (limit =? 0)%Z; inversion H1; inversion H2; subst; auto.
   - rewrite (arel_get_none _ _ _ _ HC G) in H2. unfold create_chan in H1.
-    inversion H1; inversion H2; subst; clear H1 H2. unfold s_pos; simpl. rewrite HE. split; auto.
-    unfold hubR; hub_simpl. splits; auto; try congruence.
-    apply arel_set; auto. rewrite <- HE. apply chanR_new. discriminate.
+    assert (HRN : hubR cfgs (set_nep (set_chan h ch (new_chan (h_nep h) false)) (h_nep h + 1))
+       (s_set (mkSS (aset N.eqb (ss_chans s) ch (mkSC (ss_nep s) [] [] 0 0 0)) (ss_idem s) (ss_now s) (ss_nep s + 1) (ss_bcast s)) ch
+              (touch_mdead (mttl_of cfgs ch) (ss_now s) (mkSC (ss_nep s) [] [] 0 0 0)))).
+    { apply hubR_create; auto. apply chanR_touch_mdead. rewrite <- HE. apply chanR_new. discriminate. }
+    inversion H1; inversion H2; subst; clear H1 H2.
+    rewrite s_pos_touch. unfold s_pos; simpl. rewrite HE in HRN |- *. split; auto.
 Qed.
 
 (* -------------------------------------------------------------- read state *)
@@ -334,35 +370,37 @@ Lemma read_state_sim : forall cfgs h s ch rev cur lim k asc h' r s' r',
   r = r' /\ hubR cfgs h' s'.
 Proof.
   intros cfgs h s ch rev cur lim k asc h' r s' r' HR H1 H2.
-  pose proof HR as (HC & HI & HN & HE & HB).
   unfold read_state, spec_read_state, s_get, s_ensure, s_get in *.
   destruct (cfg_of cfgs ch) as [cf|e] eqn:CF; [|inversion H1; inversion H2; subst; auto].
   set (h0 := touch_meta h ch (cf_mttl cf)) in *.
   assert (HR0 : hubR cfgs h0 s) by (apply hubR_touch_meta; exact HR).
-  clearbody h0. clear h HR HC HI HN HE HB. rename h0 into h. rename HR0 into HR.
+  clearbody h0. clear h HR. rename h0 into h. rename HR0 into HR.
   pose proof HR as (HC & HI & HN & HE & HB).
   destruct (get_chan h ch) as [c|] eqn:G; unfold get_chan in G.
-  - destruct (arel_get_some _ _ _ _ _ HC G) as (sc & G' & HCR). rewrite G' in H2.
+  - destruct (arel_get_some _ _ _ _ _ HC G) as (sc & G' & HCR0). rewrite G' in H2.
+    set (sc' := touch_mdead (cf_mttl cf) (ss_now s) sc) in *.
+    assert (HCR : chanR cfgs ch c sc') by (apply chanR_touch_mdead; exact HCR0).
     pose proof (chanR_pos _ _ _ _ HCR) as EP.
     pose proof HCR as (ES & EM & EL & (EO1 & EO2) & EK).
     unfold get_state_chan in H1. rewrite EP, EM in H1.
     rewrite <- (state_page_spec (cf_ordered cf) asc) in H2.
-    destruct (state_pre (sc_map sc) (s_pos sc) rev lim k) eqn:PRE.
-    + inversion H1; inversion H2; subst. split; auto. eapply hubR_set_chan; eauto.
+    destruct (state_pre (sc_map sc') (s_pos sc') rev lim k) eqn:PRE.
+    + inversion H1; inversion H2; subst. split; auto.
+      apply hubR_set_both; auto.
     + inversion H1; inversion H2; subst; clear H1 H2. split.
       * rewrite refresh_cache_sorted by assumption. rewrite EM.
-        destruct (sc_map sc) as [|x m] eqn:EMM.
+        destruct (sc_map sc') as [|x m] eqn:EMM.
         -- rewrite !sorted_keys_nil, !state_page_nil. reflexivity.
         -- assert (c_ordered c = cf_ordered cf) as ->; auto.
            rewrite EO2 by (rewrite EM; discriminate). unfold ordered_of. rewrite CF. reflexivity.
-      * eapply hubR_set_chan; eauto. apply refresh_cache_chanR. assumption.
+      * apply hubR_set_both; auto. apply refresh_cache_chanR. assumption.
   - rewrite (arel_get_none _ _ _ _ HC G) in H2. unfold create_chan in H1.
-    assert (hubR cfgs (set_nep (set_chan h ch (new_chan (h_nep h) false)) (h_nep h + 1))
-                 (mkSS (aset N.eqb (ss_chans s) ch (mkSC (ss_nep s) [] [])) (ss_idem s) (ss_now s) (ss_nep s + 1) (ss_bcast s))).
-    { unfold hubR; hub_simpl. splits; auto; try congruence.
-      apply arel_set; auto. rewrite <- HE. apply chanR_new. discriminate. }
-    unfold s_pos in H2; simpl in H2.
+    assert (HRN : hubR cfgs (set_nep (set_chan h ch (new_chan (h_nep h) false)) (h_nep h + 1))
+       (s_set (mkSS (aset N.eqb (ss_chans s) ch (mkSC (ss_nep s) [] [] 0 0 0)) (ss_idem s) (ss_now s) (ss_nep s + 1) (ss_bcast s)) ch
+              (touch_mdead (cf_mttl cf) (ss_now s) (mkSC (ss_nep s) [] [] 0 0 0)))).
+    { apply hubR_create; auto. apply chanR_touch_mdead. rewrite <- HE. apply chanR_new. discriminate. }
+    rewrite s_pos_touch in H2. unfold s_pos in H2; simpl in H2.
     destruct rev as [[ro re]|].
-    + destruct (negb (re =? 0)); inversion H1; inversion H2; subst; rewrite HE in H |- *; auto.
-    + inversion H1; inversion H2; subst; rewrite HE in H |- *; auto.
+    + destruct (negb (re =? 0)); inversion H1; inversion H2; subst; rewrite HE in HRN |- *; auto.
+    + inversion H1; inversion H2; subst; rewrite HE in HRN |- *; auto.
 Qed.
